@@ -370,6 +370,9 @@ def module_jobs(r):
         jobs['enc'] = [2, e['literals'], data_job(e['data']), 0, []]
         jobs['asm'] = [5, e['literals'], items_job(r['items'])]
         return jobs
+    if 'parse_exc' in r:
+        jobs['dec'] = [1, r['bytes14']]
+        return jobs
     p = r['parse']
     e = r['emitted']
     jobs['dec'] = [1, r['bytes14']]
@@ -504,6 +507,11 @@ class Checker:
             elif not case.get('legit_reject'):
                 self.rep(f'C09/writer-raises({exc},{what})', desc,
                          {'exc': r['bytes_exc']}, True)
+            return
+        if 'parse_exc' in r:
+            # the real loader refuses a module the real compiler wrote
+            self.rep(f'C09/loader-raises({r["parse_exc"][0]})', desc,
+                     {'exc': r['parse_exc'], 'model_decode': _short(model_mod(mo['dec']))}, True)
             return
         p = r['parse']
         # --- the loader recovers what the compiler handed to the writer (property, real vs real)
